@@ -1,6 +1,7 @@
 package main
 
 import (
+	"golang.org/x/tools/go/ssa"
 	"fmt"
 	"go/constant"
 	"go/types"
@@ -183,6 +184,27 @@ func (fc *FnCtx) evalExpr(e Expr, env *Env) Val {
 		}
 		fc.fail("cannot slice value of kind %d", xv.K)
 	case *EField:
+		// pkg.Name: a package-level variable of a package the function's package imports (base64.StdEncoding)
+		if id, ok := x.X.(*EIdent); ok && fc.fn.Pkg != nil {
+			if _, local := env.lookup(id.Name); !local {
+				for _, imp := range fc.fn.Pkg.Pkg.Imports() {
+					if imp.Name() != id.Name {
+						continue
+					}
+					if sp := fc.e.prog.Package(imp); sp != nil {
+						if g, ok := sp.Members[x.F].(*ssa.Global); ok {
+							t := derefType(g.Type())
+							l := Loc{T: t, kind: "cell", heap: "G." + mangle(g.Pkg.Pkg.Name()+"."+g.Name()), ref: "0"}
+							hh := env.heap
+							if env.inOld {
+								hh = env.old
+							}
+							return fc.loadLoc(hh, l)
+						}
+					}
+				}
+			}
+		}
 		xv := fc.evalExpr(x.X, env)
 		h := env.heap
 		if env.inOld {
